@@ -28,7 +28,7 @@ for (mid, f, old, new, checks) in m.M:
     r = {"file": f, "suite_passes": suite_ok, "checks": {}}
     for c in checks:
         e2 = dict(env, VERIF_REPO=WT, VERIF_EVIDENCE_DIR=os.path.join(ROOT, "work", "evidence-scratch"))
-        out = subprocess.run(["./check", c, "quick"], cwd=ROOT, capture_output=True, text=True, env=e2)
+        out = subprocess.run(["./check", c, "quick"], cwd=ROOT, capture_output=True, text=True, errors="replace", env=e2)
         viol = [l for l in out.stdout.splitlines() if l.startswith("VIOLATION")]
         mons = sorted(set(l.split("monitor=")[1].split()[0] for l in viol))
         r["checks"][c] = {"exit": out.returncode, "violations": len(viol), "monitors": mons}
